@@ -43,6 +43,16 @@ class _WFile:
         self._log.append(("flush", self._rel, self.fid))
         return self._f.flush()
 
+    def seek(self, *a):
+        pos = self._f.seek(*a)
+        self._log.append(("seek", self._rel, pos, self.fid))
+        return pos
+
+    def truncate(self, *a):
+        size = self._f.truncate(*a)
+        self._log.append(("truncate", self._rel, size, self.fid))
+        return size
+
     def close(self):
         if not self._closed:
             self._closed = True
@@ -130,12 +140,14 @@ def record(ctx, tree, op, now):
 
 def apply_log(tree, prefix, tear, lose_buffers=False):
     """pure: the tree after the operations in prefix; tear = number of bytes of the LAST write that made it.
+    Writes happen at the position of their open file (append, overwrite after a seek, truncate are all followed).
     lose_buffers: the kill also loses what the process had written but not yet flushed / closed: every file that is
-    still open at the crash point is cut back to the length it had at its last flush (Python buffers writes; the data
+    still open at the crash point gets back the content it had at its last flush (Python buffers writes; the data
     of an unflushed file is in user space and dies with the process - even if the file was renamed meanwhile)."""
     t = dict(tree)
     cur = {}       # open id -> current path of that file
-    flushed = {}   # open id -> length known to be on disk
+    pos = {}       # open id -> file position
+    flushed = {}   # open id -> content known to be on disk
     for i, o in enumerate(prefix):
         k = o[0]
         if k == "mkdir":
@@ -147,20 +159,32 @@ def apply_log(tree, prefix, tear, lose_buffers=False):
                 t.setdefault(o[1], b"")
             if len(o) > 3:
                 cur[o[3]] = o[1]
-                flushed[o[3]] = len(t[o[1]])
+                pos[o[3]] = len(t[o[1]]) if "a" in o[2] else 0
+                flushed[o[3]] = t[o[1]]
         elif k == "write":
             data = o[2]
             if i == len(prefix) - 1 and tear is not None:
                 data = data[:tear]
-            p = cur.get(o[3], o[1]) if len(o) > 3 else o[1]
-            t[p] = t.get(p, b"") + data
+            fid = o[3] if len(o) > 3 else None
+            p = cur.get(fid, o[1])
+            old = t.get(p, b"")
+            at = pos.get(fid, len(old))
+            t[p] = old[:at] + data + old[at + len(data):]
+            if fid is not None:
+                pos[fid] = at + len(data)
+        elif k == "seek":
+            pos[o[3]] = o[2]
+        elif k == "truncate":
+            p = cur.get(o[3], o[1])
+            t[p] = t.get(p, b"")[:o[2]]
         elif k == "flush":
             if len(o) > 2 and o[2] in cur:
-                flushed[o[2]] = len(t.get(cur[o[2]], b""))
+                flushed[o[2]] = t.get(cur[o[2]], b"")
         elif k == "close":
             if len(o) > 2:
                 cur.pop(o[2], None)
                 flushed.pop(o[2], None)
+                pos.pop(o[2], None)
         elif k == "replace":
             for p in list(t):
                 if p == o[1] or p.startswith(o[1] + "/"):
@@ -173,7 +197,7 @@ def apply_log(tree, prefix, tear, lose_buffers=False):
     if lose_buffers:
         for fid, p in cur.items():
             if p in t and t[p] is not DIR:
-                t[p] = t[p][:flushed.get(fid, 0)]
+                t[p] = flushed.get(fid, b"")
     return t
 
 
